@@ -36,8 +36,11 @@ def run_task(name):
         ctx = Ctx()
         info = task(ctx)
         out["function"] = info
-        if ctx.obligations:
-            verify.add_strfact_obligations(ctx, name)
+        relock = bool(os.environ.get("PYVC_RELOCK"))
+        hints = {}
+        if not relock and os.path.exists(LOCK) and not os.environ.get("PYVC_NO_HINTS"):
+            hints = json.load(open(LOCK)).get(name, {}).get("hints", {})
+        out["hints"] = {}
         if not ctx.obligations:
             out["status"] = "vacuous"
         timeout = int(os.environ.get("PYVC_TIMEOUT_MS", "10000"))
@@ -49,12 +52,29 @@ def run_task(name):
                 continue
             if nbad >= 1:
                 os.environ["PYVC_NO_PORTFOLIO"] = "1"
+            if ob["id"] in hints:
+                ob["hint"] = hints[ob["id"]]
             r = verify.solve(ctx, ob, timeout)
             out["obligations"].append(r)
             if r["status"] != "discharged":
                 nbad += 1
                 if os.environ.get("PYVC_STOP_FIRST"):
                     break
+            elif relock and r["time"] > 0.3 and ob["kind"] not in ("frame-abs", "cover-sat", "strfact"):
+                # record which hypotheses the proof needs: the next runs try these first (small, stable query)
+                core = verify.core_of(ctx, ob, int(min(60000, max(10000, 4000 * r["time"]))))
+                if core is not None and len(core) < len(ob["hyps"]):
+                    out["hints"][ob["id"]] = core
+        # string axioms of this context, over the theory of strings (generated after the other VCs are solved:
+        # creating string-sorted terms was seen to perturb z3's search on unrelated queries of the same process)
+        n0 = len(ctx.obligations)
+        if ctx.obligations:
+            verify.add_strfact_obligations(ctx, name)
+        for ob in ctx.obligations[n0:]:
+            r = verify.solve(ctx, ob, timeout)
+            out["obligations"].append(r)
+            if r["status"] != "discharged":
+                nbad += 1
         need = [o for o in out["obligations"] if o["status"] == "needs-finite"]
         if need:
             fctx = Ctx(finite=6)
@@ -117,6 +137,7 @@ def main():
     from pyvc import plan
     tasks = all_tasks()
     if a.relock:
+        os.environ["PYVC_RELOCK"] = "1"
         names = sorted(tasks)
     else:
         names = [t for t in plan.PROPERTY_TASKS.get(a.prop, []) if t in tasks]
@@ -141,6 +162,7 @@ def main():
                 "sha256": (r["function"] or {}).get("sha256") if isinstance(r["function"], dict) else None,
                 "discharged": sorted(o["id"] for o in r["obligations"] if o["status"] == "discharged"),
                 "not_discharged": sorted(o["id"] + ":" + o["status"] for o in r["obligations"] if o["status"] != "discharged"),
+                "hints": r.get("hints", {}),
             }
             print(f"{r['task']:45s} {r['status']:15s} {len(lock[r['task']]['discharged'])}/{len(r['obligations'])} {r['wall_s']}s {r.get('detail','')[:200]}")
         json.dump(lock, open(LOCK, "w"), indent=1, sort_keys=True)
